@@ -5,6 +5,10 @@
 //!   STATS\t<json>                    totals
 mod codec;
 mod dynval;
+// the binary-private modules of slicec, compiled from the repository's current files
+#[path = "/repo/slicec/src/definition_types.rs"]
+#[allow(dead_code, unused_imports)]
+mod definition_types;
 
 use std::collections::{BTreeMap, HashSet};
 use std::hash::{Hash, Hasher};
@@ -52,6 +56,8 @@ fn main() {
         let res = match (engine, f.as_slice()) {
             ("codec", ["enc", _fam, ty, val, exp]) => codec::run_enc(ty, val, exp),
             ("codec", ["dec", _fam, ty, hx, exp]) => codec::run_dec(ty, hx, exp),
+            ("codec", ["skip", _fam, hx, exp]) => codec::run_skip(hx, exp),
+            ("codec", ["reply", _fam, hx, exp]) => codec::run_reply(hx, exp),
             _ => codec::CaseResult { actual: "?".into(), diff: Some("unknown case shape".into()), oracle: None, nontrivial: false },
         };
         st.total += 1;
@@ -67,8 +73,14 @@ fn main() {
         if let Some(d) = res.diff { st.diffs += 1; if st.diffs <= 200 { writeln!(out, "DIFF\t{}\t{}", line.replace('\t', " "), d).unwrap(); } }
         if let Some(d) = res.oracle { st.oracle += 1; if st.oracle <= 200 { writeln!(out, "ORACLE\t{}\t{}", line.replace('\t', " "), d).unwrap(); } }
     }
+    // peak resident set of the whole run: a decoder whose memory follows announced sizes shows up here
+    let hwm_kb: u64 = std::fs::read_to_string("/proc/self/status").ok().and_then(|t| t.lines().find(|l| l.starts_with("VmHWM:"))
+        .and_then(|l| l.split_whitespace().nth(1).and_then(|n| n.parse().ok()))).unwrap_or(0);
+    if engine == "codec" && hwm_kb > 400_000 {
+        writeln!(out, "ORACLE\tpeak-rss\tthe decoder run peaked at {} KiB of resident memory on inputs of at most 64 bytes", hwm_kb).unwrap();
+    }
     let fams: Vec<String> = st.families.iter().map(|(k, v)| format!("{}:{}", json_str(k), v)).collect();
     let samples: Vec<String> = st.samples.values().flatten().map(|s| json_str(s)).collect();
-    writeln!(out, "STATS\t{{\"evaluations\":{},\"diffs\":{},\"oracle_failures\":{},\"distinct_nontrivial\":{},\"families\":{{{}}},\"samples\":[{}]}}",
-        st.total, st.diffs, st.oracle, st.distinct_nontrivial.len(), fams.join(","), samples.join(",")).unwrap();
+    writeln!(out, "STATS\t{{\"evaluations\":{},\"diffs\":{},\"oracle_failures\":{},\"distinct_nontrivial\":{},\"peak_rss_kb\":{},\"families\":{{{}}},\"samples\":[{}]}}",
+        st.total, st.diffs, st.oracle, st.distinct_nontrivial.len(), hwm_kb, fams.join(","), samples.join(",")).unwrap();
 }
